@@ -297,7 +297,12 @@ func c09setup(spec c09envSpec) (*c09env, error) {
 			return nil, err
 		}
 		e.kr = kr
-		opts = append(opts, func(c *serf.Config) { c.MemberlistConfig.Keyring = kr })
+		// packets stay plaintext so that the node's replies can be read from the transport
+		opts = append(opts, func(c *serf.Config) {
+			c.MemberlistConfig.Keyring = kr
+			c.MemberlistConfig.GossipVerifyOutgoing = false
+			c.MemberlistConfig.GossipVerifyIncoming = false
+		})
 	}
 	if spec.Merge {
 		opts = append(opts, func(c *serf.Config) { c.Merge = c09acceptMerge{} })
@@ -660,7 +665,7 @@ func init() {
 	c09reg(&c09entry{name: "NotifyMerge(Meta)", env: c09envSpec{Merge: true}, wellformed: c09metaWellformed, class: metaClass,
 		deliver: func(e *c09env, i int, in []byte) {
 			m := e.n.Conf.MemberlistConfig.Merge
-			m.NotifyMerge([]*memberlist.Node{c09metaNode(e, "b", 1, nil), c09metaNode(e, fmt.Sprintf("d%d", i), 3, in)})
+			m.NotifyMerge([]*memberlist.Node{e.n.MLNode("b", 1, map[string]string{"role": "web"}), c09metaNode(e, fmt.Sprintf("d%d", i), 3, in)})
 		}})
 	c09reg(&c09entry{name: "NotifyAlive(Meta)", env: c09envSpec{Merge: true}, wellformed: c09metaWellformed, class: metaClass,
 		deliver: func(e *c09env, i int, in []byte) {
@@ -723,7 +728,7 @@ func init() {
 	vc.Register(&vc.Check{
 		ID:    "C09",
 		Level: "exploration",
-		Rule: "cases: every (entry point, byte string) of a bounded adversarial space handed to a real Serf node ('a', knows an alive member 'b' and a failed member 'c'; with/without keyring, with/without merge delegate, with an open query where replies are the input) through the memberlist-facing interface: Delegate.NotifyMsg, Delegate.MergeRemoteState(join=false/true), PingDelegate.NotifyPingComplete(+AckPayload), EventDelegate.NotifyJoin/NotifyUpdate and Merge/Alive delegates with arbitrary Meta, a query's single filter, the payload of each internal query (_serf_ping/conflict/install-key/use-key/remove-key/list-keys/unknown, with and without keyring), the payload of a reply into an open conflict query and an open ListKeys/InstallKey query. Spaces: (i) all byte strings of length <=2 at every entry point (thorough: length 3 for NotifyMsg with first byte = each of the 10 message types); (ii) hand-encoded msgpack maps: full products of per-field domains {absent, nil, 0/empty, 1/1-element, max, negative, wrong msgpack type, long string, length header without body} for leave, join, user event, query response (against no/an open query), relay envelope (header fields x inner reply kinds), push/pull, conflict response, key response, key request, coordinate; for queries the products filters x flags x relay factor x address x name, name x payload x keyring x flags x relay factor, and the scalar fields (thorough) resp. one-field sweeps (quick); (iii) every truncation and every single-byte substitution by {00,01,7f,80,90,a0,c0,c3,cf,db,df,ff} of a valid seed encoding of every kind. Oracle per case: no controlled thread (delivering thread, serf's handler goroutines, timers) panics, the delivering call returns, an input that does not decode as its kind changes nothing (private state, coordinate, keyring, events, outbox, transport) resp. a key request that does not decode is answered with Result=false, and afterwards Members() lists the node, the node is alive and a fresh user event reaches the event channel. non-trivial = the input decodes as its kind, i.e. gets past the first rejection and reaches a handler",
+		Rule: "cases: every (entry point, byte string) of a bounded adversarial space handed to a real Serf node ('a', knows an alive member 'b' and a failed member 'c'; with/without keyring, with/without merge delegate, with an open query where replies are the input) through the memberlist-facing interface: Delegate.NotifyMsg, Delegate.MergeRemoteState(join=false/true), PingDelegate.NotifyPingComplete(+AckPayload), EventDelegate.NotifyJoin/NotifyUpdate and Merge/Alive delegates with arbitrary Meta, a query's single filter, the payload of each internal query (_serf_ping/conflict/install-key/use-key/remove-key/list-keys/unknown, with and without keyring), the payload of a reply into an open conflict query and an open ListKeys/InstallKey query. Spaces: (i) all byte strings of length <=2 at the top-level entry points (NotifyMsg, MergeRemoteState x2, NotifyPingComplete, NotifyJoin metadata); at the nested ones (filter, internal-query payloads, replies, the other three metadata paths) the quick tier takes length <=1 plus length 2 behind each of 12 type/version/msgpack-header bytes and the thorough tier all of length <=2 (payload-blind internal queries ping/list-keys/unknown: length <=1); thorough adds length 3 for NotifyMsg with first byte = each of the 10 message types; these sweeps deliver 256 inputs one after the other to the same node (a batch with any failure is re-run input by input), all other cases get a fresh node each; (ii) hand-encoded msgpack maps: full products of per-field domains {absent, nil, 0/empty, 1/1-element, max, negative, wrong msgpack type, long string, length header without body} for leave, join, user event, query response (against no/an open query), relay envelope (header fields x inner reply kinds), push/pull, conflict response, key response, key request, coordinate; for queries the products filters x flags x relay factor x address x name, name x payload x keyring x flags x relay factor, and the scalar fields (thorough) resp. one-field sweeps (quick); (iii) every truncation and every single-byte substitution by {00,01,7f,80,90,a0,c0,c3,cf,db,df,ff} of a valid seed encoding of every kind. Oracle per case: no controlled thread (delivering thread, serf's handler goroutines, timers) panics, the delivering call returns, an input that does not decode as its kind changes nothing (private state, coordinate, keyring, events, outbox, transport) resp. a key request that does not decode is answered with Result=false, and afterwards Members() lists the node, the node is alive and a fresh user event reaches the event channel. non-trivial = the input decodes as its kind, i.e. gets past the first rejection and reaches a handler",
 		Assumptions: []string{
 			"one node over an inert real memberlist; inputs are delivered serially, each followed by running all of serf's threads to quiescence",
 			"'malformed' is taken as: not decodable by the msgpack decoder into the structure of its kind (or unknown type byte / wrong version byte); only for those the 'is ignored' half is asserted",
